@@ -21,7 +21,8 @@ _COMMON_NOTE = ("Trusted: Lean kernel + the three standard axioms; the hand tran
                 "values returned as Iterator / T& / Array& dropped, `*d = *(++s)` right operand first; everything else, and the other seven headers, validated on every run by the correspondence, not proved: identical op lines on the real headers and on "
                 "the compiled model; exact comparison of contents, ledger counters and of the COMPLETE lifecycle event log "
                 "construct/copy/assign/destroy/alloc/free with canonical slot names (block serial, slot index, member), so free-list order, "
-                "block layout, Array reallocation and shifting, order of member construction/destruction are all compared); the harness element "
+                "block layout, Array reallocation and shifting, order of member construction/destruction are all compared; one exception: the POSITION inside an op of the release of a hash container's table - a block without "
+                "element slots, printed Ft<b> - is not compared, only that it happens); the harness element "
                 "type (Tracked/Fixed) and allocator ledger. The number of items per block of each node container is not a constant of the model: "
                 "tools/areas/life.py translate reads it from the sources (allocation size and free-list threading loop must agree) into "
                 "lean/Nstd/Generated/LifeConst.lean, the driver uses it, every theorem holds for every table N >= 1; the harness derives slot names from the "
@@ -67,8 +68,11 @@ MANIFEST = {
                 "destructor call / assignment as event-emitting primitives, one fuel-bounded recursive function per loop). Proved equal to the model operation (same memory, block table, block counter, COMPLETE event log, "
                 "same data members) on the representation of EVERY reachable state, for every size / capacity / index and every fuel above the stated bound: translated_reserve, translated_append (caller's object), "
                 "translated_append_own_element (a.append(a[i]): the pointer is followed into the new storage), translated_resize (shrink and grow, caller's object), translated_clear, translated_remove (index in and out of range), "
-                "translated_remove_iterator (+ removeFront, removeBack), translated_swap (also a.swap(a)), translated_destructor (~Array = micro step aDestroy), translated_constructor (Array(), Array(capacity)). "
-                "OPEN (translated and loops proved equal to copySlots / fillSlots, function-level equality with the model not proved; tied by the correspondence run only): Array(const Array&), operator=, append(const Array&), "
+                "translated_remove_iterator (+ removeFront, removeBack), translated_swap (also a.swap(a)), translated_destructor (~Array = micro step aDestroy), translated_constructor (Array(), Array(capacity)), "
+                "translated_append_array / translated_append_array_self (a.append(b), a.append(a): chain of aPush (elem w j) = copySlots). The translator accepts bool locals, usize subtraction (64-bit wrap-around), and inlines private / static "
+                "helper members; loop state and read-only parameters are ordered by first assignment / first use; the proofs split on size/capacity, so a spare-capacity fast path or a helper-based restructuring of reserve "
+                "(harmless C04-h1, C04-h5) regenerates and still proves. "
+                "OPEN (translated and loops proved equal to copySlots / fillSlots, function-level equality with the model not proved; tied by the correspondence run only): Array(const Array&), operator=, "
                 "append(const T*, n), resize(n, a[i]) growing. A change of one of these C++ bodies changes the generated definition: the equality proof fails or the translator refuses -> broken tie, the check searches a failing input. "
                 "Tie to the current headers on every run: exhaustive small scope per container, Array alias ops at every size/capacity boundary, a bucket-chain stream "
                 "(HashMap/HashSet/PoolMap with explicit bucket counts 1..5, keys of one bucket linked by append/prepend/positional insert in every order, then clear/assign/swap/copy/remove, "
@@ -118,8 +122,8 @@ MANIFEST = {
     },
 }
 
-OPEN = {"C04": ["PropsArrTr: function-level equality translated C++ = model operation not proved for Array(const Array&), operator=, append(const Array&), "
-               "append(const T*, n), resize(n, a[i]) growing (bodies translated, loops proved; chain of aPush (elem w j) = copySlots missing)"], "C05": []}
+OPEN = {"C04": ["PropsArrTr: function-level equality translated C++ = model operation not proved for Array(const Array&), operator=, "
+               "append(const T*, n), resize(n, a[i]) growing (bodies translated, loops proved, chain lemma exec_copy_other / exec_copy_self proved; the composition is not written)"], "C05": []}
 
 # ---- translator: items per block of the node containers -> lean/Nstd/Generated/LifeConst.lean ---------------------------
 GEN_OUT = C.LEAN / "Nstd" / "Generated" / "LifeConst.lean"
